@@ -35,6 +35,19 @@ Proof.
 Qed.
 Print Assumptions C26_hs_outcome.
 
+(* the caller's own interrupter has closed the connection exactly when the caller reports its ctx error: a nil (or
+   handshake-error) return means this call's cancellation did not touch the connection *)
+Theorem C26_interrupted_iff_ctx_error : forall s0 s, start_ok s0 -> reach s0 s -> returned s = true ->
+  (it s = IFired <-> ret s = Some RCtx).
+Proof.
+  intros s0 s H0 R Hr. pose proof (inv_reach _ _ (start_inv _ H0) R) as I.
+  pose proof (sweep _ interrupted_all s) as H. unfold interrupted_p in H. rewrite I, Hr in H. cbn [andb implb] in H.
+  apply eqb_prop in H. split.
+  - intros E. rewrite E in H. cbn in H. destruct (ret s) as [[| | |]|]; try discriminate; reflexivity.
+  - intros E. rewrite E in H. destruct (it s); try discriminate; reflexivity.
+Qed.
+Print Assumptions C26_interrupted_iff_ctx_error.
+
 (* nil and the stored error exclude each other for good *)
 Theorem C26_outcome_exclusive : forall s0 s, start_ok s0 -> reach s0 s -> complete s && hs_err s = false.
 Proof.
